@@ -224,47 +224,53 @@ Definition simple_col (name alias : string) : expr := Col (Id name) alias.
 Fixpoint distinct_strs (l : list string) : bool :=
   match l with [] => true | x :: r => negb (existsb (String.eqb x) r) && distinct_strs r end.
 
-Fixpoint wf_expr (e : expr) : bool :=
+(* d = true: also require the aliases of every WITH list to be pairwise distinct *)
+Fixpoint wfg_expr (d : bool) (e : expr) : bool :=
   match e with
   | Id s => negb (String.eqb s "")
   | Raw s => negb (String.eqb s "")
   | NumLit s => negb (String.eqb s "")
-  | RawStr _ | StrV _ | IntV _ => true
-  | FloatV s => negb (String.eqb s "")
+  | RawStr _ | StrV _ | IntV _ | FloatV _ => true
   | LOp fn cl =>
       match fn with
       | OAnd | OOr => negb (match cl with [] => true | _ => false end)
       | _ => Nat.eqb (List.length cl) 2
-      end && forallb wf_expr cl
-  | InE l r => wf_expr l && negb (match r with [] => true | _ => false end) && forallb wf_expr r
+      end && forallb (wfg_expr d) cl
+  | InE l r => wfg_expr d l && negb (match r with [] => true | _ => false end) && forallb (wfg_expr d) r
   | WRef a => negb (String.eqb a "")
-  | Col e _ => wf_expr e
-  | Ord e _ => wf_expr e
-  | Fn _ args => forallb wf_expr args
-  | PFn _ ps args => forallb wf_expr ps && forallb wf_expr args
-  | Distinct e => wf_expr e
-  | Bin _ a b => wf_expr a && wf_expr b
-  | EqBare a b => wf_expr a && wf_expr b
-  | Tuple l => negb (match l with [] => true | _ => false end) && forallb wf_expr l
-  | Lambda x b => negb (String.eqb x "") && wf_expr b
-  | BitSet terms => negb (match terms with [] => true | _ => false end) && forallb wf_expr terms
-  | BitAnd l r => wf_expr l && wf_expr r
-  | GroupBitOr e _ => wf_expr e
-  | MatchRe f _ => wf_expr f
+  | Col e _ => wfg_expr d e
+  | Ord e _ => wfg_expr d e
+  | Fn _ args => forallb (wfg_expr d) args
+  | PFn _ ps args => forallb (wfg_expr d) ps && forallb (wfg_expr d) args
+  | Distinct e => wfg_expr d e
+  | Bin _ a b => wfg_expr d a && wfg_expr d b
+  | EqBare a b => wfg_expr d a && wfg_expr d b
+  | Tuple l => negb (match l with [] => true | _ => false end) && forallb (wfg_expr d) l
+  | Lambda x b => negb (String.eqb x "") && wfg_expr d b
+  | BitSet terms => negb (match terms with [] => true | _ => false end) && forallb (wfg_expr d) terms
+  | BitAnd l r => wfg_expr d l && wfg_expr d r
+  | GroupBitOr e _ => wfg_expr d e
+  | MatchRe f _ => wfg_expr d f
   | AttrValue _ => true
-  | Intersect l => negb (match l with [] => true | _ => false end) && forallb wf_sel l
-  | Union l => negb (match l with [] => true | _ => false end) && forallb wf_sel l
+  | Intersect l => negb (match l with [] => true | _ => false end) && forallb (wfg_sel d) l
+  | Union l => negb (match l with [] => true | _ => false end) && forallb (wfg_sel d) l
   end
-with wf_sel (s : select) : bool :=
+with wfg_sel (d : bool) (s : select) : bool :=
   match s with
   | Sel withs _ cols from joins pw wh hv gb ob lim =>
-      distinct_strs (map fst withs) && forallb (fun w => negb (String.eqb (fst w) "") && wf_sel (snd w)) withs
-      && negb (match cols with [] => true | _ => false end) && forallb wf_expr cols
-      && match from with Some f => wf_expr f | None => match joins with [] => true | _ => false end end
-      && forallb (fun j => wf_expr (snd (fst j)) && match snd j with Some on => wf_expr on | None => true end) joins
-      && match pw with Some e => wf_expr e | None => true end
-      && match wh with Some e => wf_expr e | None => true end
-      && match hv with Some e => wf_expr e | None => true end
-      && forallb wf_expr gb && forallb wf_expr ob
-      && match lim with Some e => wf_expr e | None => true end
+      (if d then distinct_strs (map fst withs) else true)
+      && forallb (fun w => negb (String.eqb (fst w) "") && wfg_sel d (snd w)) withs
+      && negb (match cols with [] => true | _ => false end) && forallb (wfg_expr d) cols
+      && match from with Some f => wfg_expr d f | None => match joins with [] => true | _ => false end end
+      && forallb (fun j => wfg_expr d (snd (fst j)) && match snd j with Some on => wfg_expr d on | None => true end) joins
+      && match pw with Some e => wfg_expr d e | None => true end
+      && match wh with Some e => wfg_expr d e | None => true end
+      && match hv with Some e => wfg_expr d e | None => true end
+      && forallb (wfg_expr d) gb && forallb (wfg_expr d) ob
+      && match lim with Some e => wfg_expr d e | None => true end
   end.
+(* the oracle run on every observed statement *)
+Definition wf_sel (s : select) : bool := wfg_sel true s.
+(* the clause part alone: every and/or/IN/tuple/bit-set/select list non-empty, comparisons binary, references named *)
+Definition wfc_sel (s : select) : bool := wfg_sel false s.
+Definition wfc_expr (e : expr) : bool := wfg_expr false e.
